@@ -5,11 +5,17 @@ import McpModel.OAuth.Challenge
 Driver for E11 (C15).
 
 Flow records:   `auth st=… cimd=… pre=… dcr=… u=<url> hm=… ch=… hdr=… prm=… asm=… reg=… tok=… f=… [init=… sty=…]`
-                observation `out=<outcome> inst=<0|1> log=<events>` (`Authorize` returning nil is `ok` both
-                for a completed flow and for the 403-without-insufficient_scope skip); the driver runs `authorize` on the
+                creates a NEW handler with that configuration and runs one `Authorize` round on it;
+                `again st=… u=<url> hm=… ch=… hdr=… prm=… asm=… reg=… tok=… f=… [sty=…]` runs ANOTHER round on the
+                handler of the case (same configuration; its own request URL, response and network).
+                Observation `out=<outcome> inst=<0|1> cur=<i|k> log=<events>` (`Authorize` returning nil is `ok` both
+                for a completed flow and for the 403-without-insufficient_scope skip; `inst` = TokenSource()
+                changed in this round; `cur` = the round that installed the source now served, `i` = the
+                initial one); the driver runs `Handler.authorize` on the state of the case and the
                 world of the record, prints the same form, and evaluates the C15 monitor on the
                 IMPLEMENTATION's observation (request log, outcome, token source changed?) — the monitor
-                uses only the specification predicates and the scripted world, never `authorize`.
+                uses only the specification predicates, the scripted world of the round and what the
+                implementation did in earlier rounds of the case, never `authorize`.
 Parser records: `www <hex> <hex> …` (one token per header value) observation `err` | `ok <challenge>…`;
                 `wwwfuzz <hex>` (arbitrary bytes) observation `nopanic`.
 -/
@@ -132,6 +138,7 @@ structure Case where
   prmTab : List (Url × Resp PrmDoc)
   asmTab : List (Url × Resp AsmDoc)
   tokTab : List (Url × List TokResp)
+  regTab : List (Url × RegResp)
   fetch : FetchAnswer
   hdr : Option (List String)           -- rendered header values (hex), for the parser cross-check
   chHex : List String
@@ -142,13 +149,19 @@ def kvs (toks : List String) : List (String × String) :=
     | k :: v :: rest => some (k, "=".intercalate (v :: rest))
     | _ => none
 
-def parseCase (toks : List String) : Option Case := do
+/-- `over` = the configuration of the handler of the case (`again` records carry none of their own). -/
+def parseCase (over : Option HConfig) (toks : List String) : Option Case := do
   let m := kvs toks
   let get := fun k => m.lookup k
   let st ← get "st"
-  let cimd ← get "cimd"
-  let pre ← get "pre"
-  let dcr ← get "dcr"
+  let hc : HConfig ← match over with
+    | some c => some c
+    | none => do
+      let cimd ← get "cimd"
+      let pre ← get "pre"
+      let dcr ← get "dcr"
+      let preCfg : Option Url ← if pre == "none" then some none else (parseUrl pre).map some
+      some { cimd := cimd == "1", pre := preCfg, dcr := dcr == "1" }
   let u ← (← get "u") |> parseUrl
   let hm ← get "hm"
   let cht ← get "ch"
@@ -158,7 +171,6 @@ def parseCase (toks : List String) : Option Case := do
   let regTab ← parseMap parseRegResp (← get "reg")
   let tokTab ← parseMap (fun s => (s.splitOn ",").mapM parseTokResp) (← get "tok")
   let f ← parseFetch (← get "f")
-  let preCfg : Option Url ← if pre == "none" then some none else (parseUrl pre).map some
   let hdr : Option (List String) := (get "hdr").map fun h => if h == "." then [] else h.splitOn ","
   let world : World := {
     prm := fun _ x => (prmTab.lookup x).getD .status4xx
@@ -166,9 +178,9 @@ def parseCase (toks : List String) : Option Case := do
     reg := fun x => (regTab.lookup x).getD .fail
     tok := fun i x => ((tokTab.lookup x).getD []).getD i .fail
     fetch := fun _ => f }
-  some { cfg := { cimd := cimd == "1", pre := preCfg, dcr := dcr == "1", serverUrl := u },
+  some { cfg := hc.at u,
          inp := { status403 := st == "403", headerMalformed := hm == "1", challenges := chs.map (·.1) },
-         world := world, prmTab := prmTab, asmTab := asmTab, tokTab := tokTab, fetch := f, hdr := hdr,
+         world := world, prmTab := prmTab, asmTab := asmTab, tokTab := tokTab, regTab := regTab, fetch := f, hdr := hdr,
          chHex := chs.map (·.2) }
 
 /-! ### Observations -/
@@ -192,9 +204,13 @@ def showOutcome : Outcome → String
   | .fetch => "fetch" | .state => "state" | .issMissing => "iss-missing" | .issMismatch => "iss-mismatch" | .issUnexpected => "iss-unexpected"
   | .exch => "exch" | .post => "post"
 
-def showResult (r : Result) : String :=
+def showServed : Served → String
+  | .initial => "i"
+  | .round n => toString n
+
+def showResult (r : Result) (cur : Served) : String :=
   let lg := if r.log.isEmpty then "." else ",".intercalate (r.log.map showEvent)
-  s!"out={showOutcome r.outcome} inst={if r.installed then 1 else 0} log={lg}"
+  s!"out={showOutcome r.outcome} inst={if r.installed then 1 else 0} cur={showServed cur} log={lg}"
 
 structure Obs where
   out : String
@@ -250,7 +266,9 @@ def firstSome {α β} (f : α → Option β) : List α → Option β
     | some b => some b
     | none => firstSome f t
 
-def monitor (c : Case) (o : Obs) : Option String :=
+/-- `hist`: issuers at which EARLIER rounds of this handler registered dynamically (as observed).
+Returns the violated clause and the issuers at which THIS round registered. -/
+def monitor (c : Case) (hist : List Url) (o : Obs) : Option String × List Url :=
   let U := c.cfg.serverUrl
   let ch := rmFrom c.inp.challenges
   let reqs := o.events.filter Event.isRequest
@@ -323,6 +341,21 @@ def monitor (c : Case) (o : Obs) : Option String :=
       if pi == .empty || eff.isEmpty then none
       else if eff.any fun d => issuersEqual pi d.issuer then none
       else some "C15: preregistered_issuer_binding: credentials registered for another issuer were presented"
+  -- (6b) credentials of the other modes: configured, and presented only to the server that issued them
+  let registeredNow := fun (d : AsmDoc) => o.events.any fun e => match e with
+    | .register u => u == d.registrationEndpoint && (match c.regTab.lookup u with
+        | some (.created true _) => true
+        | _ => false)
+    | _ => false
+  let usesDcr := o.events.any fun e => e.cred == .dcr
+  let c6d := if !usesDcr then none
+    else if !c.cfg.dcr then some "C15: registered_credentials_bound_to_issuer: dynamically registered credentials used but dynamic registration is not configured"
+    else if eff.isEmpty then none
+    else if eff.any fun d => registeredNow d || hist.any (issuersEqual · d.issuer) then none
+    else some "C15: registered_credentials_bound_to_issuer: dynamically registered credentials presented to an authorization server that did not issue them (no successful registration there in this round or an earlier one)"
+  let c6c := if (o.events.any fun e => e.cred == .cimd) && !c.cfg.cimd then
+      some "C15: registered_credentials_bound_to_issuer: a client-id metadata document URL is used but none is configured"
+    else none
   -- (7) no installation on failure
   let goodTok := o.events.any fun e => match e with
     | .token u _ => ((c.tokTab.lookup u).getD []).any fun r => r != .fail
@@ -331,7 +364,7 @@ def monitor (c : Case) (o : Obs) : Option String :=
       some s!"C15: failed_check_installs_nothing: Authorize returned {o.out} but installed a token source"
     else if o.inst && !goodTok then some "C15: failed_check_installs_nothing: token source installed without a successful exchange"
     else none
-  c1 <|> c2 <|> c3 <|> c3r <|> c4 <|> c5 <|> c6 <|> c7
+  (c1 <|> c2 <|> c3 <|> c3r <|> c4 <|> c5 <|> c6 <|> c6d <|> c6c <|> c7, (eff.filter registeredNow).map (·.issuer))
 
 /-! ### Challenge parser records -/
 
@@ -376,25 +409,40 @@ def hdrConsistent (c : Case) : Bool :=
            | "insufficient_scope" => ch.error == .insufficientScope
            | _ => ch.error == .other)
 
-def engine : Engine Unit where
-  init := ()
-  step _ toks impl :=
+/-- The state of a case: the model handler, and what the monitor remembers of the implementation's
+earlier rounds (issuers at which it registered dynamically). -/
+structure HState where
+  h : Handler
+  dcrIssuers : List Url := []
+
+def roundStep (st : HState) (c : Case) (impl : String) : Option HState × Verdict :=
+  if !hdrConsistent c then (some st, { model := "model-header-mismatch" }) else
+  let (h', r) := st.h.authorize { serverUrl := c.cfg.serverUrl, inp := c.inp, world := c.world }
+  let (viol, regd) := match parseObs impl with
+    | none => (some "C15: unparsable observation", [])
+    | some o => monitor c st.dcrIssuers o
+  (some { h := h', dcrIssuers := st.dcrIssuers ++ regd }, { model := showResult r h'.served, violated := viol })
+
+def engine : Engine (Option HState) where
+  init := none
+  step st toks impl :=
     match toks with
-    | ["reset"] => ((), { model := "ok" })
-    | "www" :: hexes => ((), { model := wwwModel hexes })
+    | ["reset"] => (none, { model := "ok" })
+    | "www" :: hexes => (st, { model := wwwModel hexes })
     | ["wwwfuzz", _] =>
-      ((), { model := "nopanic", violated := if impl == "nopanic" then none else some "C15: ParseWWWAuthenticate panics" })
+      (st, { model := "nopanic", violated := if impl == "nopanic" then none else some "C15: ParseWWWAuthenticate panics" })
     | "auth" :: rest =>
-      match parseCase rest with
-      | none => ((), { model := "bad-op" })
-      | some c =>
-        if !hdrConsistent c then ((), { model := "model-header-mismatch" }) else
-        let r := authorize c.cfg c.inp c.world
-        let viol := match parseObs impl with
-          | none => some "C15: unparsable observation"
-          | some o => monitor c o
-        ((), { model := showResult r, violated := viol })
-    | _ => ((), { model := "bad-op" })
+      match parseCase none rest with
+      | none => (none, { model := "bad-op" })
+      | some c => roundStep { h := { cfg := { cimd := c.cfg.cimd, pre := c.cfg.pre, dcr := c.cfg.dcr } } } c impl
+    | "again" :: rest =>
+      match st with
+      | none => (none, { model := "no-handler" })
+      | some hs =>
+        match parseCase (some hs.h.cfg) rest with
+        | none => (st, { model := "bad-op" })
+        | some c => roundStep hs c impl
+    | _ => (st, { model := "bad-op" })
 
 end OAuth
 
